@@ -25,9 +25,13 @@ func TestVerifC12Enum(t *testing.T) {
 			{K: "advance", DtMs: 11000},
 		},
 		Names: []string{"J0[ta]", "J0[ta,tb]", "J0[tb]", "J1[ta]", "J1[ta,tb]", "S0", "S1", "L1", "+11s"},
-		Depth: r.N(5, 6),
+		Depth: r.N(3, 5),
+		Preambles: map[string][]gOp{
+			"empty":   nil,
+			"stable2": {{K: "join", Slot: 0, Sub: a}, {K: "join", Slot: 1, Sub: ab}, {K: "settle"}},
+		},
 	}
-	defer r.Finish(fmt.Sprintf("bounded-exhaustive: ALL %d sequences of length %d (hence every shorter one as a prefix) over the alphabet %v for 2 members and topics ta(2 partitions), tb(3) are run on the real coordinator on virtual time and judged at every successful SyncGroup by the C12 observer of leg 'group' (only subscribed topics; disjoint; stable within a generation; exact cover once all members synced). non-trivial = sequence in which a 2-member generation was fully synced", spec.total(), spec.Depth, spec.Names))
+	defer r.Finish(fmt.Sprintf("bounded-exhaustive: ALL %d sequences of length %d (hence every shorter one as a prefix) over the alphabet %v, started from the empty group and from a settled Stable group of 2 members (subscriptions [ta] and [ta,tb]), for 2 members and topics ta(2 partitions), tb(3) are run on the real coordinator on virtual time and judged at every successful SyncGroup by the C12 observer of leg 'group' (only subscribed topics; disjoint; stable within a generation; exact cover once all members synced). non-trivial = sequence in which a 2-member generation was fully synced", spec.total(), spec.Depth, spec.Names))
 	var cur *c12Obs
 	gEnumerate(t, spec, func(seq string) []gObserver {
 		cur = &c12Obs{r: r, gens: map[string]*c12Gen{}}
@@ -46,6 +50,6 @@ func TestVerifC12Enum(t *testing.T) {
 	})
 	r.Exhaustive(true)
 	r.Note("sequences", spec.total())
-	r.Floor("sync_success", 1000)
-	r.Floor("generations_fully_synced_multi_member", 20)
+	r.Floor("sync_success", 500)
+	r.Floor("generations_fully_synced_multi_member", int64(r.N(20, 2000)))
 }
